@@ -17,7 +17,7 @@ func init() {
 		Doc: "the argument vector is immutable during backtracking: no element store, copy destination or append base is a []string that is not freshly made in the same function", Run: mat1})
 	register(&Rule{ID: "MAT-2", Props: []string{"C02", "C09", "C13", "C15", "C10", "C19"}, Floor: 3,
 		Doc: "every string recorded into the context is a sub-slice of a command-line token or the literal \"true\"; the positional matcher records exactly args[0] and returns args[1:]", Run: mat2})
-	register(&Rule{ID: "MAT-3", Props: []string{"C01", "C09"}, Floor: 4,
+	register(&Rule{ID: "MAT-3", Props: []string{"C01", "C09", "C02", "C15"}, Floor: 4,
 		Doc: "every matcher consults the options-ended flag", Run: mat3})
 	register(&Rule{ID: "MAT-4", Props: []string{"C12", "C01"}, Floor: 2,
 		Doc: "every non-matching exit of the option matcher yields the env flag with the vector unchanged; a true verdict carries a matched sub-call's vector", Run: mat4})
@@ -349,6 +349,72 @@ func mat3(c *Ctx) {
 			}
 		}
 		c.Check(ok && n >= 2, Q(fn), fn.Pos(), "no occurrence is looked for once options are ended", "the option matcher scans for occurrences although options are ended")
+		// the scan ends at a `--` token: it is neither handed to a sub-matcher nor stepped over
+		var args *ssa.Parameter
+		for _, p := range fn.Params {
+			if isStringSlice(p.Type()) {
+				args = p
+			}
+		}
+		type ddTest struct {
+			v  ssa.Value
+			eq bool // outcome meaning "the token is --"
+		}
+		var tests []ddTest
+		ir.Instrs(fn, func(in ssa.Instruction) {
+			bo, isBo := in.(*ssa.BinOp)
+			if !isBo || (bo.Op != token.EQL && bo.Op != token.NEQ) {
+				return
+			}
+			x, y := bo.X, bo.Y
+			if _, isC := x.(*ssa.Const); isC {
+				x, y = y, x
+			}
+			if sv, isS := ir.ConstString(y); !isS || sv != "--" {
+				return
+			}
+			ld, isLd := x.(*ssa.UnOp)
+			if !isLd {
+				return
+			}
+			if ia, isIA := ld.X.(*ssa.IndexAddr); isIA && ia.X == ssa.Value(args) {
+				tests = append(tests, ddTest{bo, bo.Op == token.EQL})
+			}
+		})
+		okDD, whyDD := len(tests) > 0, "the scan never compares the token with `--`"
+		for _, t := range tests {
+			for _, e := range ir.EdgesWhere(fn, t.v, t.eq) {
+				for r := range ir.ReachVia(e.From, e.To, nil, nil) {
+					if r == e.From && ir.InLoop(e.From) {
+						okDD, whyDD = false, "after a `--` token the scan goes on (a later token would be taken as an option)"
+					}
+					if ir.IsReturn(r) {
+						ret := r.Instrs[len(r.Instrs)-1].(*ssa.Return)
+						if _, isP := stripConv(ret.Results[1]).(*ssa.Parameter); !isP {
+							okDD, whyDD = false, "the exit taken at a `--` token does not hand the vector back unchanged"
+						}
+					}
+				}
+			}
+		}
+		if okDD {
+			for _, call := range ir.Calls(fn) {
+				f := ir.Static(call)
+				if f == nil || f.Pkg != fn.Pkg || f.Signature.Recv() == nil {
+					continue
+				}
+				guarded := false
+				for _, t := range tests {
+					if ir.HoldsAt(t.v, !t.eq, call.Block()) {
+						guarded = true
+					}
+				}
+				if !guarded {
+					okDD, whyDD = false, "a sub-matcher can be handed a `--` token"
+				}
+			}
+		}
+		c.Check(okDD, Q(fn)+":stops-at-dashdash", fn.Pos(), "the scan for an occurrence ends at a `--` token, which is neither matched nor stepped over", whyDD)
 	}
 	if fn := c.Fn("internal/matcher", "options.try"); fn != nil {
 		ok := true
@@ -394,7 +460,7 @@ func mat3(c *Ctx) {
 				ok, why = false, "the positional matcher never reads the options-ended flag"
 			}
 			// refusals (other than empty input) need !flag, HasPrefix(args[0],"-"), args[0] != "-"
-			for _, r := range ir.ReturnPoints(fn) {
+			for _, r := range ir.ReturnWays(fn) {
 				v, isC := ir.ConstBool(r.Results[0])
 				if !isC || v {
 					continue
@@ -403,23 +469,7 @@ func mat3(c *Ctx) {
 					continue
 				}
 				okRefuse := flagFalseH(c, fn, r.Holds)
-				hasPrefix, notDash := false, false
-				ir.Instrs(fn, func(in ssa.Instruction) {
-					switch x := in.(type) {
-					case *ssa.Call:
-						if f := ir.Static(x); f != nil && ir.IsStdFunc(f, "strings", "HasPrefix") {
-							if s, isS := ir.ConstString(x.Call.Args[1]); isS && s == "-" && r.Holds(x, true) {
-								hasPrefix = true
-							}
-						}
-					case *ssa.BinOp:
-						if s, isS := ir.ConstString(x.Y); isS && s == "-" {
-							if (x.Op == token.NEQ && r.Holds(x, true)) || (x.Op == token.EQL && r.Holds(x, false)) {
-								notDash = true
-							}
-						}
-					}
-				})
+				hasPrefix, notDash := optionLikeH(fn, r.Holds)
 				if !okRefuse || !hasPrefix || !notDash {
 					ok, why = false, "a positional token is refused under a condition other than: options not ended, starts with '-', is not '-'"
 				}
@@ -1599,6 +1649,75 @@ func extractPhi(v ssa.Value) (calls []*ssa.Call, idx int) {
 
 // dashPrefixTests returns the boolean values of fn that are true exactly when string v starts with '-':
 // strings.HasPrefix(v, "-"), or the lowered `len(v) > 0 && v[0] == '-'` / `v != "" && v[0] == '-'`.
+// optionLikeH: what is known, on the way described by holds, about the first token of fn's vector
+// parameter: dash = it starts with '-' (strings.HasPrefix(t, "-") true, or t[0] == '-'); more = it is not
+// the lone "-" (t != "-", or a length test whose outcome is impossible for lengths 0 and 1).
+func optionLikeH(fn *ssa.Function, holds func(ssa.Value, bool) bool) (dash, more bool) {
+	var args *ssa.Parameter
+	for _, p := range fn.Params {
+		if isStringSlice(p.Type()) {
+			args = p
+		}
+	}
+	isTok := func(v ssa.Value) bool {
+		ld, ok := v.(*ssa.UnOp)
+		if !ok || ld.Op != token.MUL {
+			return false
+		}
+		ia, isIA := ld.X.(*ssa.IndexAddr)
+		if !isIA || ia.X != ssa.Value(args) {
+			return false
+		}
+		z, isZ := ir.ConstInt(ia.Index)
+		return isZ && z == 0
+	}
+	ir.Instrs(fn, func(in ssa.Instruction) {
+		switch x := in.(type) {
+		case *ssa.Call:
+			if f := ir.Static(x); f != nil && ir.IsStdFunc(f, "strings", "HasPrefix") {
+				if s, isS := ir.ConstString(x.Call.Args[1]); isS && s == "-" && isTok(x.Call.Args[0]) && holds(x, true) {
+					dash = true
+				}
+			}
+		case *ssa.BinOp:
+			if x.Op != token.EQL && x.Op != token.NEQ && x.Op != token.LSS && x.Op != token.LEQ && x.Op != token.GTR && x.Op != token.GEQ {
+				return
+			}
+			// t == "-" / t != "-"
+			if s, isS := ir.ConstString(x.Y); isS && s == "-" && isTok(x.X) {
+				if (x.Op == token.NEQ && holds(x, true)) || (x.Op == token.EQL && holds(x, false)) {
+					more = true
+				}
+			}
+			// t[0] == '-'
+			if ix, isIx := x.X.(*ssa.Index); isIx && isTok(ix.X) {
+				if z, isZ := ir.ConstInt(ix.Index); isZ && z == 0 {
+					if k, isK := ir.ConstInt(x.Y); isK && k == '-' {
+						if (x.Op == token.EQL && holds(x, true)) || (x.Op == token.NEQ && holds(x, false)) {
+							dash = true
+						}
+					}
+				}
+			}
+			// len(t) op k with an outcome that lengths 0 and 1 cannot produce
+			if lc, isCall := x.X.(*ssa.Call); isCall {
+				if bi, isB := lc.Call.Value.(*ssa.Builtin); isB && bi.Name() == "len" && isTok(lc.Call.Args[0]) {
+					if k, isK := ir.ConstInt(x.Y); isK {
+						for _, want := range []bool{true, false} {
+							z, okZ := lenCmp(x.Op, 0, k)
+							o, okO := lenCmp(x.Op, 1, k)
+							if okZ && okO && z != want && o != want && holds(x, want) {
+								more = true
+							}
+						}
+					}
+				}
+			}
+		}
+	})
+	return dash, more
+}
+
 func dashPrefixTests(fn *ssa.Function, v ssa.Value) []ssa.Value {
 	var out []ssa.Value
 	isFirstDash := func(x ssa.Value) bool {
